@@ -44,7 +44,7 @@ func verifyFunction(p *program, fn *ssa.Function, fc *funcContract, safetyOnly b
 			panic(r)
 		}
 	}()
-	x.decls = append(x.decls, "(declare-fun empty_arr () (Array Int Int))", "(define-fun rv_zero () Int 0)", "(declare-fun nextRef!0 () Int)")
+	x.decls = append(x.decls, "(define-fun empty_arr () (Array Int Int) ((as const (Array Int Int)) 0))", "(define-fun rv_zero () Int 0)", "(declare-fun nextRef!0 () Int)")
 	x.assume("true", app(">", "nextRef!0", fmt.Sprint(maxGlobals)))
 	st := &state{heap: map[string]string{}, guard: "true", nextRef: "nextRef!0"}
 	fr := x.newFrame(fn, 0)
@@ -236,7 +236,7 @@ func verifyLemma(p *program, key string, fc *funcContract) (res *funcResult) {
 			panic(r)
 		}
 	}()
-	x.decls = append(x.decls, "(declare-fun empty_arr () (Array Int Int))", "(define-fun rv_zero () Int 0)", "(declare-fun nextRef!0 () Int)")
+	x.decls = append(x.decls, "(define-fun empty_arr () (Array Int Int) ((as const (Array Int Int)) 0))", "(define-fun rv_zero () Int 0)", "(declare-fun nextRef!0 () Int)")
 	x.assume("true", app(">", "nextRef!0", fmt.Sprint(maxGlobals)))
 	st := &state{heap: map[string]string{}, guard: "true", nextRef: "nextRef!0"}
 	env := &cenv{x: x, vars: map[string]Val{}, st: st, old: st, pkg: sp.Pkg}
@@ -319,8 +319,14 @@ func (x *vc) script(o *obligation) string {
 		b.WriteString(a)
 		b.WriteByte('\n')
 	}
-	if strings.Contains(b.String(), "(streq ") || strings.Contains(o.goal, "(streq ") || strings.Contains(o.guard, "(streq ") {
+	// string-equality axioms only where the function's own terms use them (the prelude mentions the symbols too)
+	own := b.String()[len(prelude):] + o.goal + o.guard
+	hasKey := strings.Contains(own, "(strkey ") || strings.Contains(own, "(keystr ")
+	if hasKey || strings.Contains(own, "(streq ") {
 		b.WriteString(streqAxioms)
+	}
+	if strings.Contains(own, "(keystr ") {
+		b.WriteString(strkeyAxioms)
 	}
 	if body := b.String() + o.goal + o.guard; strings.Contains(body, "rv_") || strings.Contains(body, "kind_of_type") || strings.Contains(body, " RV)") || strings.Contains(body, " RV ") {
 		body = b.String()
